@@ -22,6 +22,16 @@ __all__ = (
 svdvals = lambda m: np.linalg.svd(m, compute_uv=False)
 
 
+def _second_svdval(m):
+    """
+    The second largest singular value; 0 when a variable has a single symbol
+    (there is then only one singular value).
+    """
+    m = np.atleast_2d(m)
+    vals = svdvals(m)
+    return vals[1] if len(vals) > 1 else 0.0
+
+
 def conditional_maximum_correlation_pmf(pmf):
     """
     Compute the conditional maximum correlation from a 3-dimensional
@@ -44,7 +54,7 @@ def conditional_maximum_correlation_pmf(pmf):
     Q = np.where(pmf, pXYgZ / (np.sqrt(pXgZ) * np.sqrt(pYgZ)), 0)
     Q[np.isnan(Q)] = 0
 
-    rho_max = max(svdvals(np.squeeze(m))[1] for m in np.dsplit(Q, Q.shape[2]))
+    rho_max = max(_second_svdval(m[:, :, 0]) for m in np.dsplit(Q, Q.shape[2]))
 
     return rho_max
 
@@ -69,7 +79,7 @@ def maximum_correlation_pmf(pXY):
     Q = pXY / (np.sqrt(pX) * np.sqrt(pY))
     Q[np.isnan(Q)] = 0
 
-    rho_max = svdvals(Q)[1]
+    rho_max = _second_svdval(Q)
 
     return rho_max
 
